@@ -135,7 +135,10 @@ CHECKS = {
          "and every cell content - parses back to exactly the canonical pairs), C14_epm_bytes and C14_jsonld_bytes (the text "
          "write_extended_prefix_map / write_jsonld_context put on disk, through the text-level model of json.dumps and json.loads - "
          "Model/Json.lean, parse_render: reading the written text gives the value back for every value made of Unicode scalar values, "
-         "every indent, both ensure_ascii modes - reads back to the record dictionaries resp. the context that was written). Turtle "
+         "every indent, both ensure_ascii modes - reads back to the record dictionaries resp. the context that was written), "
+         "C14_jsonld_file (end to end: terms sorted as sort_keys=True does, written, parsed and filtered by from_jsonld's term rule "
+         "give exactly the canonical pairs plus the synonyms), C14_epm_sorted (the record dictionaries are already in sort_keys "
+         "order), C14_jsonld_ascii (a JSON-LD file is pure ASCII whatever the prefixes contain). Turtle "
          "files are modelled at the level of the string literals; the real writers and readers are run on real files for every case, "
          "the text of every TSV file is compared character for character with the model, every JSON file is parsed by the modelled "
          "json.loads and compared with CPython's result, and 10 % of the cases exercise the JSON text layer alone against CPython's "
